@@ -163,7 +163,7 @@ fn c18_a_newly_voted_public_address_is_reported_for_confirmation() {
 // C20: statistics == aggregate over the cached lookups; cleanup removes exactly the done queries
 // =============================================================================================
 fn stats(t: &RoutingTable) -> (usize, f64, usize, f64, usize) {
-    crate::common::routing_table::verif_kani::stats(t)
+    crate::common::verif_kani::routing_table::stats(t)
 }
 
 fn cached(kind: u8, target: Id, d: f64, r: f64, subnets: u8) -> CachedIterativeQuery {
@@ -229,8 +229,8 @@ fn c20_stats_equal_the_aggregate_over_cached_lookups() {
     if has_prev {
         c.cached_iterative_queries.put(prev_target, cached(pk, prev_target, pd as f64, pr as f64, ps));
         let (b, s) = contrib(pk, pd as f64, pr as f64, ps);
-        crate::common::routing_table::verif_kani::set_stats(&mut c.routing_table, b);
-        crate::common::routing_table::verif_kani::set_stats(&mut c.signed_peers_routing_table, s);
+        crate::common::verif_kani::routing_table::set_stats(&mut c.routing_table, b);
+        crate::common::verif_kani::routing_table::set_stats(&mut c.signed_peers_routing_table, s);
     }
     // the finished lookup
     let k: u8 = kani::any::<u8>() % 4;
@@ -243,7 +243,7 @@ fn c20_stats_equal_the_aggregate_over_cached_lookups() {
     let mut q = iq::query(k, target);
     let online: bool = kani::any();
     if online {
-        iq::push_candidate(&mut q, crate::common::node::verif_kani::node_aged(id1(0x20), SocketAddrV4::new(5u32.into(), 5), 0));
+        iq::push_candidate(&mut q, crate::common::verif_kani::node::node_aged(id1(0x20), SocketAddrV4::new(5u32.into(), 5), 0));
     }
     c.cache_iterative_query(&q, &[]);
 
@@ -277,8 +277,8 @@ fn c20_evicting_a_cached_lookup_subtracts_exactly_its_contribution() {
     let (d2, r2, s2): (u8, u8, u8) = (kani::any(), kani::any(), kani::any());
     let (b1, s1) = contrib(k, d as f64, r as f64, s);
     let (b2, sg2) = contrib(k2, d2 as f64, r2 as f64, s2);
-    crate::common::routing_table::verif_kani::set_stats(&mut c.routing_table, (b1.0 + b2.0, b1.1 + b2.1, b1.2 + b2.2, b1.3 + b2.3, b1.4 + b2.4));
-    crate::common::routing_table::verif_kani::set_stats(&mut c.signed_peers_routing_table, (s1.0 + sg2.0, s1.1 + sg2.1, s1.2 + sg2.2, s1.3 + sg2.3, s1.4 + sg2.4));
+    crate::common::verif_kani::routing_table::set_stats(&mut c.routing_table, (b1.0 + b2.0, b1.1 + b2.1, b1.2 + b2.2, b1.3 + b2.3, b1.4 + b2.4));
+    crate::common::verif_kani::routing_table::set_stats(&mut c.signed_peers_routing_table, (s1.0 + sg2.0, s1.1 + sg2.1, s1.2 + sg2.2, s1.3 + sg2.3, s1.4 + sg2.4));
     c.decrement_cached_iterative_query_stats(Some(cached(k, id1(0x10), d as f64, r as f64, s)));
     assert!(stats(&c.routing_table) == b2 && stats(&c.signed_peers_routing_table) == sg2, "C20: eviction subtracts what caching added, from the same table");
     c.decrement_cached_iterative_query_stats(None);
@@ -329,10 +329,10 @@ fn c14_maintenance_round_drops_stale_nodes_and_pings_the_quiet_ones() {
     let age1: u64 = kani::any();
     let age2: u64 = kani::any();
     kani::assume(age1 <= 2_000_000 && age2 <= 2_000_000);
-    let n1 = crate::common::node::verif_kani::node_aged(id1(0x10), SocketAddrV4::new(11u32.into(), 11), age1);
-    let n2 = crate::common::node::verif_kani::node_aged(id1(0x20), SocketAddrV4::new(12u32.into(), 12), age2);
-    crate::common::routing_table::verif_kani::place_pub(&mut c.routing_table, n1);
-    crate::common::routing_table::verif_kani::place_pub(&mut c.signed_peers_routing_table, n2);
+    let n1 = crate::common::verif_kani::node::node_aged(id1(0x10), SocketAddrV4::new(11u32.into(), 11), age1);
+    let n2 = crate::common::verif_kani::node::node_aged(id1(0x20), SocketAddrV4::new(12u32.into(), 12), age2);
+    crate::common::verif_kani::routing_table::place_pub(&mut c.routing_table, n1);
+    crate::common::verif_kani::routing_table::place_pub(&mut c.signed_peers_routing_table, n2);
     let to_ping = c.check_nodes_to_ping_and_remove_stale_nodes();
     let stale1 = age1 > 900_000;
     let stale2 = age2 > 900_000;
